@@ -9,144 +9,201 @@ Open Scope list_scope.
 Open Scope Z_scope.
 
 (* ------------------------------------------------------------------------------------ *)
-(* A. what is logged: a function is `quiet` when it only appends reads / capability       *)
-(*    queries to the log and leaves the bytes alone                                      *)
+(* A. what is logged: a function is `polite` for a source when it leaves the bytes alone  *)
+(*    and only appends calls that the source offers                                       *)
 (* ------------------------------------------------------------------------------------ *)
-Definition quiet (s s' : stream) : Prop :=
-  st_bytes s' = st_bytes s /\ exists ext, st_log s' = st_log s ++ ext /\ no_seek_tell ext = true.
+Definition polite (c : caps) (s s' : stream) : Prop :=
+  st_bytes s' = st_bytes s /\ exists ext, st_log s' = st_log s ++ ext /\ only_offered c ext = true.
 
 Lemma nst_app a b : no_seek_tell (a ++ b) = no_seek_tell a && no_seek_tell b.
 Proof. apply forallb_app. Qed.
+Lemma oo_app c a b : only_offered c (a ++ b) = only_offered c a && only_offered c b.
+Proof. apply forallb_app. Qed.
 
-Lemma quiet_refl s : quiet s s.
+Lemma polite_refl c s : polite c s s.
 Proof. split; [reflexivity|]. exists []. now rewrite app_nil_r. Qed.
 
-Lemma quiet_trans a b c : quiet a b -> quiet b c -> quiet a c.
+Lemma polite_trans c x y z : polite c x y -> polite c y z -> polite c x z.
 Proof.
   intros [B1 (e1 & L1 & N1)] [B2 (e2 & L2 & N2)]. split; [congruence|].
-  exists (e1 ++ e2). rewrite L2, L1, app_assoc, nst_app, N1, N2. now split.
+  exists (e1 ++ e2). rewrite L2, L1, app_assoc, oo_app, N1, N2. now split.
 Qed.
 
-Lemma quiet_read n s : quiet s (snd (s_read n s)).
+Lemma polite_read c n s : polite c s (snd (s_read n s)).
 Proof. split; [reflexivity|]. exists [ORead n]. now split. Qed.
-Lemma quiet_readinto n s : quiet s (snd (s_readinto n s)).
-Proof. split; [reflexivity|]. exists [OReadInto n]. now split. Qed.
-Lemma quiet_seekable c s : quiet s (snd (s_seekable c s)).
-Proof. split; [reflexivity|]. exists [OSeekable]. now split. Qed.
+Lemma polite_readinto c n s : c_readinto c = true -> polite c s (snd (s_readinto n s)).
+Proof. intros H. split; [reflexivity|]. exists [OReadInto n]. split; [reflexivity|]. cbn. now rewrite H. Qed.
+Lemma polite_seek c p s : can_seek c = true -> polite c s (s_seek p s).
+Proof. intros H. split; [reflexivity|]. exists [OSeek p]. split; [reflexivity|]. cbn. now rewrite H. Qed.
+Lemma polite_tell c s : can_seek c = true -> polite c s (snd (s_tell s)).
+Proof. intros H. split; [reflexivity|]. exists [OTell]. split; [reflexivity|]. cbn. now rewrite H. Qed.
 
-Lemma quiet_sdec_fields l : forall s, quiet s (snd (sdec_fields l s)).
+(* getattr(stream, "seekable", lambda: False)(): the answer, and nothing is called on a source without the method *)
+Lemma s_can_seek_spec c s :
+  fst (s_can_seek c s) = can_seek c /\ polite c s (snd (s_can_seek c s))
+  /\ st_bytes (snd (s_can_seek c s)) = st_bytes s /\ st_pos (snd (s_can_seek c s)) = st_pos s.
 Proof.
-  induction l as [|[[k w] n] l IH]; intros s; [apply quiet_refl|].
-  cbn [sdec_fields]. pose proof (quiet_read (Z.of_nat w) s) as Q.
+  unfold s_can_seek, can_seek. destruct (c_has_seekable c) eqn:H; cbn [fst snd andb s_seekable st_bytes st_pos].
+  - repeat split. exists [OSeekable]. split; [reflexivity|]. cbn. now rewrite H.
+  - repeat split. apply polite_refl.
+Qed.
+
+Lemma polite_sdec_fields c l : forall s, polite c s (snd (sdec_fields l s)).
+Proof.
+  induction l as [|[[k w] n] l IH]; intros s; [apply polite_refl|].
+  cbn [sdec_fields]. pose proof (polite_read c (Z.of_nat w) s) as Q.
   destruct (s_read (Z.of_nat w) s) as [raw s1]. cbn [snd] in Q.
   specialize (IH s1). destruct (sdec_fields l s1) as [a s2]. cbn [snd] in *.
-  eapply quiet_trans; eassumption.
+  eapply polite_trans; eassumption.
 Qed.
 
-Lemma quiet_sread_vlrs n : forall s, quiet s (snd (sread_vlrs n s)).
+Lemma polite_sread_vlrs c n : forall s, polite c s (snd (sread_vlrs n s)).
 Proof.
-  induction n as [|n IH]; intros s; [apply quiet_refl|].
+  induction n as [|n IH]; intros s; [apply polite_refl|].
   cbn [sread_vlrs].
-  pose proof (quiet_sdec_fields evlr_head s) as Q1. destruct (sdec_fields evlr_head s) as [a1 s1]. cbn [snd] in Q1.
+  pose proof (polite_sdec_fields c evlr_head s) as Q1. destruct (sdec_fields evlr_head s) as [a1 s1]. cbn [snd] in Q1.
   destruct (ascii_ok (abytes a1 "user_id")); [|exact Q1].
-  pose proof (quiet_sdec_fields evlr_tail s1) as Q2. destruct (sdec_fields evlr_tail s1) as [a2 s2]. cbn [snd] in Q2.
-  pose proof (quiet_read (aint a2 "record_length") s2) as Q3. destruct (s_read (aint a2 "record_length") s2) as [data s3]. cbn [snd] in Q3.
+  pose proof (polite_sdec_fields c evlr_tail s1) as Q2. destruct (sdec_fields evlr_tail s1) as [a2 s2]. cbn [snd] in Q2.
+  pose proof (polite_read c (aint a2 "record_length") s2) as Q3. destruct (s_read (aint a2 "record_length") s2) as [data s3]. cbn [snd] in Q3.
   specialize (IH s3). destruct (sread_vlrs n s3) as [r s4]. cbn [snd] in *.
-  eapply quiet_trans; [exact Q1|]. eapply quiet_trans; [exact Q2|]. eapply quiet_trans; eassumption.
+  eapply polite_trans; [exact Q1|]. eapply polite_trans; [exact Q2|]. eapply polite_trans; eassumption.
 Qed.
 
-Lemma quiet_prefetch s : quiet s (snd (prefetch s)).
+Lemma polite_prefetch c s : polite c s (snd (prefetch s)).
 Proof.
-  unfold prefetch. pose proof (quiet_read prefetch_first_read s) as Q1.
+  unfold prefetch. pose proof (polite_read c prefetch_first_read s) as Q1.
   destruct (s_read prefetch_first_read s) as [hb s1]. cbn [snd] in Q1.
   destruct (length (firstn 4 hb) =? 0)%nat; [exact Q1|].
   destruct (negb (list_eqb (firstn 4 hb) LASF)); [exact Q1|].
   destruct (len hb <? prefetch_first_read); [exact Q1|].
-  match goal with |- context [s_read ?n s1] => pose proof (quiet_read n s1) as Q2; destruct (s_read n s1) as [rest s2] end.
-  cbn [snd] in *. eapply quiet_trans; eassumption.
+  match goal with |- context [s_read ?n s1] => pose proof (polite_read c n s1) as Q2; destruct (s_read n s1) as [rest s2] end.
+  cbn [snd] in *. eapply polite_trans; eassumption.
 Qed.
 
-Lemma quiet_hdr_read_evlrs c rh s : c_seekable c = false \/ c_has_seekable c = false -> quiet s (snd (hdr_read_evlrs c rh s)).
+Lemma polite_hdr_read_evlrs c rh s : polite c s (snd (hdr_read_evlrs c rh s)).
 Proof.
-  intros Hc. unfold hdr_read_evlrs.
-  destruct (h_minor rh >=? 4); [|apply quiet_refl].
-  destruct (h_nev rh >? 0); [|apply quiet_refl].
-  destruct (c_has_seekable c); cbn [negb]; [|apply quiet_refl].
-  destruct Hc as [Hc|Hc]; [|discriminate].
-  unfold s_seekable. rewrite Hc. cbn [snd].
-  split; [reflexivity|]. exists [OSeekable; OSeekable]. cbn [st_log]. rewrite <- app_assoc. now split.
+  unfold hdr_read_evlrs.
+  destruct (h_minor rh >=? 4); [|apply polite_refl].
+  destruct (s_can_seek_spec c s) as (A1 & A2 & _). destruct (s_can_seek c s) as [sk s1]. cbn [fst snd] in A1, A2. subst sk.
+  destruct (h_nev rh >? 0); [|exact A2].
+  destruct (can_seek c) eqn:Hc; [|exact A2].
+  pose proof (polite_tell c s1 Hc) as Q2. destruct (s_tell s1) as [saved s2]. cbn [snd] in Q2.
+  pose proof (polite_seek c (h_evstart rh) s2 Hc) as Q3. set (s3 := s_seek (h_evstart rh) s2) in *.
+  pose proof (polite_sread_vlrs c (Z.to_nat (h_nev rh)) s3) as Q4. destruct (sread_vlrs (Z.to_nat (h_nev rh)) s3) as [r s4]. cbn [snd] in Q4.
+  assert (polite c s s4) as Q04 by (eapply polite_trans; [exact A2|]; eapply polite_trans; [exact Q2|]; eapply polite_trans; eassumption).
+  destruct r as [l|er]; cbn [snd]; [|exact Q04].
+  eapply polite_trans; [exact Q04|]. now apply polite_seek.
 Qed.
 
-Lemma quiet_open_reader c e s : c_seekable c = false \/ c_has_seekable c = false -> quiet s (snd (open_reader c e s)).
+Lemma polite_open_reader c e s : polite c s (snd (open_reader c e s)).
 Proof.
-  intros Hc. unfold open_reader. pose proof (quiet_prefetch s) as Q1. destruct (prefetch s) as [p s1]. cbn [snd] in Q1.
+  unfold open_reader. pose proof (polite_prefetch c s) as Q1. destruct (prefetch s) as [p s1]. cbn [snd] in Q1.
   destruct p as [data|er]; [|exact Q1].
   destruct (dec_header data false) as [rh|er]; [|exact Q1].
   destruct (rh_compressed rh); [exact Q1|].
   destruct e; [|exact Q1].
-  eapply quiet_trans; [exact Q1|]. now apply quiet_hdr_read_evlrs.
+  eapply polite_trans; [exact Q1|]. apply polite_hdr_read_evlrs.
 Qed.
 
-Lemma quiet_read_n_points c ps n s : quiet s (snd (read_n_points c ps n s)).
+Lemma polite_read_n_points c ps n s : polite c s (snd (read_n_points c ps n s)).
 Proof.
-  unfold read_n_points. destruct (c_readinto c).
-  - pose proof (quiet_readinto (n * ps) s) as Q. destruct (s_readinto (n * ps) s) as [d s1]. exact Q.
-  - pose proof (quiet_read (n * ps) s) as Q. destruct (s_read (n * ps) s) as [d s1]. exact Q.
+  unfold read_n_points. destruct (ps <=? 0); [apply polite_refl|]. destruct (c_readinto c) eqn:Hr.
+  - pose proof (polite_readinto c (n * ps) s Hr) as Q. destruct (s_readinto (n * ps) s) as [d s1]. exact Q.
+  - pose proof (polite_read c (n * ps) s) as Q. destruct (s_read (n * ps) s) as [d s1]. exact Q.
 Qed.
 
-Lemma quiet_read_points c rh pr n s : quiet s (snd (read_points c rh pr n s)).
+Lemma polite_read_points c rh pr n s : polite c s (snd (read_points c rh pr n s)).
 Proof.
-  unfold read_points. destruct (h_count rh - pr <=? 0); [apply quiet_refl|].
+  unfold read_points. destruct (h_count rh - pr <=? 0); [apply polite_refl|].
   match goal with |- context [read_n_points c ?ps ?m s] =>
-    pose proof (quiet_read_n_points c ps m s) as Q; destruct (read_n_points c ps m s) as [r s1] end.
+    pose proof (polite_read_n_points c ps m s) as Q; destruct (read_n_points c ps m s) as [r s1] end.
   exact Q.
 Qed.
 
-Lemma quiet_chunk_loop c rh k : forall fuel pr s, quiet s (snd (chunk_loop fuel c rh k pr s)).
+Lemma polite_chunk_loop c rh k : forall fuel pr s, polite c s (snd (chunk_loop fuel c rh k pr s)).
 Proof.
-  induction fuel as [|fu IH]; intros pr s; [apply quiet_refl|].
-  cbn [chunk_loop]. pose proof (quiet_read_points c rh pr k s) as Q.
+  induction fuel as [|fu IH]; intros pr s; [apply polite_refl|].
+  cbn [chunk_loop]. pose proof (polite_read_points c rh pr k s) as Q.
   destruct (read_points c rh pr k s) as [[r pr1] s1]. cbn [snd] in Q.
   destruct r as [[|r0 recs]|er]; try exact Q.
   specialize (IH pr1 s1). destruct (chunk_loop fu c rh k pr1 s1) as [[r2 pr2] s2]. cbn [snd] in *.
-  eapply quiet_trans; eassumption.
+  eapply polite_trans; eassumption.
 Qed.
 
-Lemma quiet_finish_evlrs c rh s : c_seekable c = false \/ c_has_seekable c = false -> quiet s (snd (finish_evlrs c rh s)).
+Lemma polite_run_steps fuel c rh : forall steps pr s, polite c s (snd (run_steps fuel c rh steps pr s)).
 Proof.
-  intros Hc. unfold finish_evlrs.
+  induction steps as [|st more IH]; intros pr s; [apply polite_refl|].
+  cbn [run_steps].
+  assert (polite c s (snd (match st with SChunks k => chunk_loop fuel c rh k pr s | SPoints n => read_points c rh pr n s end))) as Q
+    by (destruct st; [apply polite_chunk_loop|apply polite_read_points]).
+  destruct (match st with SChunks k => chunk_loop fuel c rh k pr s | SPoints n => read_points c rh pr n s end) as [[r pr1] s1].
+  cbn [snd] in Q. destruct r as [recs|er]; [|exact Q].
+  specialize (IH pr1 s1). destruct (run_steps fuel c rh more pr1 s1) as [[r2 pr2] s2]. cbn [snd] in *.
+  eapply polite_trans; eassumption.
+Qed.
+
+Lemma polite_finish_evlrs c rh s : polite c s (snd (finish_evlrs c rh s)).
+Proof.
+  unfold finish_evlrs.
   destruct ((h_minor rh >=? 4) && (h_nev rh >? 0) && is_none (rh_evlrs rh)).
-  - destruct (c_has_seekable c); cbn [negb]; [|apply quiet_refl].
-    destruct Hc as [Hc|Hc]; [|discriminate].
-    unfold s_seekable at 1. rewrite Hc.
-    match goal with |- context [sread_vlrs ?n ?s1] => pose proof (quiet_sread_vlrs n s1) as Q; destruct (sread_vlrs n s1) as [r s2] end.
-    cbn [snd] in *. eapply quiet_trans; [|exact Q]. split; [reflexivity|]. exists [OSeekable]. now split.
-  - destruct ((h_minor rh >=? 4) && is_none (rh_evlrs rh)); apply quiet_refl.
+  - destruct (s_can_seek_spec c s) as (A1 & A2 & _). destruct (s_can_seek c s) as [sk s1]. cbn [fst snd] in A1, A2. subst sk.
+    destruct (can_seek c).
+    + eapply polite_trans; [exact A2|]. apply polite_hdr_read_evlrs.
+    + pose proof (polite_sread_vlrs c (Z.to_nat (h_nev rh)) s1) as Q. destruct (sread_vlrs (Z.to_nat (h_nev rh)) s1) as [r s2].
+      cbn [snd] in *. eapply polite_trans; eassumption.
+  - destruct ((h_minor rh >=? 4) && is_none (rh_evlrs rh)); apply polite_refl.
 Qed.
 
-(* a source that says it is not seekable is never asked to seek or tell, whatever its bytes *)
-Theorem no_seek_when_not_seekable : forall c e chunk src, c_seekable c = false \/ c_has_seekable c = false ->
-  no_seek_tell (snd (read_via c e chunk src)) = true.
+(* whatever the bytes: the source is only asked what it offers - read always, readinto / seekable when it has them, seek and
+   tell only when it said it can seek *)
+Theorem only_what_is_offered : forall c e steps src, only_offered c (snd (read_via c e steps src)) = true.
 Proof.
-  intros c e chunk src Hc. unfold read_via.
+  intros c e steps src. unfold read_via.
   set (s0 := mkSt src 0 []).
-  assert (forall s, quiet s0 s -> no_seek_tell (st_log s) = true) as Fin.
+  assert (forall s, polite c s0 s -> only_offered c (st_log s) = true) as Fin.
   { intros s [_ (ext & L & N)]. rewrite L. exact N. }
-  pose proof (quiet_open_reader c e s0 Hc) as Q1. destruct (open_reader c e s0) as [o s1]. cbn [snd] in Q1.
+  pose proof (polite_open_reader c e s0) as Q1. destruct (open_reader c e s0) as [o s1]. cbn [snd] in Q1.
   destruct o as [rh|er]; [|cbn [snd]; now apply Fin].
-  assert (exists r1 pr1 s2, match chunk with None => (Ok [], 0, s1) | Some k => chunk_loop (S (length src)) c rh k 0 s1 end = (r1, pr1, s2)
-                            /\ quiet s1 s2) as (r1 & pr1 & s2 & E2 & Q2).
-  { destruct chunk as [k|].
-    - pose proof (quiet_chunk_loop c rh k (S (length src)) 0 s1) as Q.
-      destruct (chunk_loop (S (length src)) c rh k 0 s1) as [[r1 pr1] s2]. do 3 eexists. split; [reflexivity|exact Q].
-    - do 3 eexists. split; [reflexivity|apply quiet_refl]. }
-  rewrite E2. destruct r1 as [recs1|er]; [|cbn [snd]; apply Fin; eapply quiet_trans; eassumption].
-  pose proof (quiet_read_points c rh pr1 (-1) s2) as Q3. destruct (read_points c rh pr1 (-1) s2) as [[r2 pr2] s3]. cbn [snd] in Q3.
-  assert (quiet s0 s3) as Q03 by (eapply quiet_trans; [exact Q1|]; eapply quiet_trans; eassumption).
+  pose proof (polite_run_steps (S (length src)) c rh steps 0 s1) as Q2.
+  destruct (run_steps (S (length src)) c rh steps 0 s1) as [[r1 pr1] s2]. cbn [snd] in Q2.
+  assert (polite c s0 s2) as Q02 by (eapply polite_trans; eassumption).
+  destruct r1 as [recs1|er]; [|cbn [snd]; now apply Fin].
+  pose proof (polite_read_points c rh pr1 (-1) s2) as Q3. destruct (read_points c rh pr1 (-1) s2) as [[r2 pr2] s3]. cbn [snd] in Q3.
+  assert (polite c s0 s3) as Q03 by (eapply polite_trans; eassumption).
   destruct r2 as [recs2|er]; [|cbn [snd]; now apply Fin].
-  pose proof (quiet_finish_evlrs c rh s3 Hc) as Q4. destruct (finish_evlrs c rh s3) as [r3 s4]. cbn [snd] in Q4.
-  assert (quiet s0 s4) as Q04 by (eapply quiet_trans; eassumption).
+  pose proof (polite_finish_evlrs c rh s3) as Q4. destruct (finish_evlrs c rh s3) as [r3 s4]. cbn [snd] in Q4.
+  assert (polite c s0 s4) as Q04 by (eapply polite_trans; eassumption).
   destruct r3 as [rh'|er]; cbn [snd]; now apply Fin.
+Qed.
+Print Assumptions only_what_is_offered.
+
+Theorem only_what_is_offered_consume : forall c e steps src, only_offered c (snd (consume_via c e steps src)) = true.
+Proof.
+  intros c e steps src. unfold consume_via.
+  set (s0 := mkSt src 0 []).
+  assert (forall s, polite c s0 s -> only_offered c (st_log s) = true) as Fin.
+  { intros s [_ (ext & L & N)]. rewrite L. exact N. }
+  pose proof (polite_open_reader c e s0) as Q1. destruct (open_reader c e s0) as [o s1]. cbn [snd] in Q1.
+  destruct o as [rh|er]; [|cbn [snd]; now apply Fin].
+  pose proof (polite_run_steps (S (length src)) c rh steps 0 s1) as Q2.
+  destruct (run_steps (S (length src)) c rh steps 0 s1) as [[r1 pr1] s2]. cbn [snd] in Q2.
+  assert (polite c s0 s2) as Q02 by (eapply polite_trans; eassumption).
+  destruct r1 as [recs1|er]; cbn [snd]; now apply Fin.
+Qed.
+
+Lemma offered_no_seek c l : can_seek c = false -> only_offered c l = true -> no_seek_tell l = true.
+Proof.
+  intros Hc. induction l as [|o l IH]; intros H; [reflexivity|].
+  cbn [only_offered forallb] in H. apply andb_true_iff in H as [Ho Hl]. cbn [no_seek_tell forallb].
+  fold (no_seek_tell l). rewrite (IH Hl), andb_true_r. destruct o; cbn [offered] in Ho; try reflexivity; congruence.
+Qed.
+
+(* a source that does not say it can seek (it answers False, or has no seekable method at all) is never asked to seek or
+   tell, whatever its bytes, however it is consumed *)
+Theorem no_seek_when_not_seekable : forall c e steps src, can_seek c = false ->
+  no_seek_tell (snd (read_via c e steps src)) = true /\ no_seek_tell (snd (consume_via c e steps src)) = true.
+Proof.
+  intros c e steps src Hc. split; apply (offered_no_seek c); auto using only_what_is_offered, only_what_is_offered_consume.
 Qed.
 Print Assumptions no_seek_when_not_seekable.
 
@@ -566,12 +623,14 @@ Proof.
   intros HF Hm. rewrite (concat_length_const p) by now apply Forall_firstn. rewrite firstn_length, Nat.min_l by lia. reflexivity.
 Qed.
 
-Lemma read_n_points_spec c ps m s (R' : list (list Z)) tail : 0 < ps -> 0 <= m <= len R' ->
+(* read_n_points on a point area R' followed by `tail`: m records when they are there; when the data ends with the point
+   area (tail = []) asking for more gives what is left *)
+Lemma read_n_points_spec c ps m s (R' : list (list Z)) tail : 0 < ps -> 0 <= m -> (m <= len R' \/ tail = []) ->
   Forall (fun r => length r = Z.to_nat ps) R' -> 0 <= st_pos s -> avail s = concat R' ++ tail ->
   exists s', read_n_points c ps m s = (Ok (firstn (Z.to_nat m) R'), s') /\ st_bytes s' = st_bytes s /\ 0 <= st_pos s'
              /\ avail s' = concat (skipn (Z.to_nat m) R') ++ tail.
 Proof.
-  intros Hps Hm HF Hp Ha. unfold read_n_points.
+  intros Hps Hm0 Hm HF Hp Ha. unfold read_n_points. destruct (ps <=? 0) eqn:E0; [lia|].
   assert (exists data s', (if c_readinto c then s_readinto (m * ps) s else s_read (m * ps) s) = (data, s')
             /\ data = firstn (Z.to_nat (m * ps)) (avail s) /\ avail s' = skipn (Z.to_nat (m * ps)) (avail s)
             /\ st_bytes s' = st_bytes s /\ 0 <= st_pos s') as (data & s' & E & D1 & D2 & D3 & D4).
@@ -580,65 +639,136 @@ Proof.
     - destruct (s_read_spec (m * ps) s ltac:(nia) Hp) as (A & B & C & D). destruct (s_read (m * ps) s) as [d s']. eauto 10. }
   rewrite E. exists s'.
   set (p := Z.to_nat ps) in *. set (k := Z.to_nat m).
-  assert (k <= length R')%nat as Hk by (unfold k, len in *; lia).
-  pose proof (concat_firstn_len p R' k HF Hk) as Hcl.
   assert (Z.to_nat (m * ps) = (k * p)%nat) as Hmp by (unfold k, p; nia).
-  assert (concat R' ++ tail = concat (firstn k R') ++ (concat (skipn k R') ++ tail)) as Hsplit.
-  { rewrite app_assoc, <- concat_app, firstn_skipn. reflexivity. }
-  assert (data = concat (firstn k R')) as Hd.
-  { rewrite D1, Ha, Hmp, Hsplit. apply firstn_app_exact. exact Hcl. }
-  split; [|split; [exact D3|split; [exact D4|]]].
-  - destruct (ps <=? 0) eqn:E0; [lia|]. f_equal.
-    assert (len data = m * ps) as Hld by (unfold len; rewrite Hd, Hcl; unfold k, p; nia).
-    rewrite Hld, Z.mod_mul by lia. change (0 =? 0) with true. cbv iota. f_equal.
-    rewrite Hd. apply chunks_whole; [unfold p; lia|now apply Forall_firstn|].
-    rewrite Hcl, firstn_length. unfold p. nia.
-  - rewrite D2, Ha, Hmp, Hsplit. apply skipn_app_exact. exact Hcl.
+  set (RR := firstn k R').
+  assert (Forall (fun r => length r = p) RR) as HFR by (now apply Forall_firstn).
+  assert (data = concat RR /\ avail s' = concat (skipn k R') ++ tail) as [Hd Hav].
+  { destruct (Z_le_gt_dec m (len R')) as [Hle|Hgt].
+    - assert (k <= length R')%nat as Hk by (unfold k, len in *; lia).
+      pose proof (concat_firstn_len p R' k HF Hk) as Hcl.
+      assert (concat R' ++ tail = concat (firstn k R') ++ (concat (skipn k R') ++ tail)) as Hsplit.
+      { rewrite app_assoc, <- concat_app, firstn_skipn. reflexivity. }
+      split.
+      + rewrite D1, Ha, Hmp, Hsplit. apply firstn_app_exact. exact Hcl.
+      + rewrite D2, Ha, Hmp, Hsplit. apply skipn_app_exact. exact Hcl.
+    - destruct Hm as [Hm|Ht]; [lia|]. subst tail. rewrite app_nil_r in Ha.
+      assert (length R' <= k)%nat as Hk by (unfold k, len in *; lia).
+      assert (length (concat R') <= k * p)%nat as Hcl by (rewrite (concat_length_const p R' HF); nia).
+      unfold RR. rewrite (firstn_all2 R') by exact Hk. rewrite (skipn_all2 R') by exact Hk. cbn [concat app].
+      split.
+      + rewrite D1, Ha, Hmp. now apply firstn_all2.
+      + rewrite D2, Ha, Hmp. now apply skipn_all2. }
+  split; [|split; [exact D3|split; [exact D4|exact Hav]]].
+  f_equal.
+  assert (len data = len RR * ps) as Hld.
+  { unfold len. rewrite Hd, (concat_length_const p RR HFR). unfold p. nia. }
+  rewrite Hld, Z.mod_mul by lia. change (0 =? 0) with true. cbv iota. f_equal.
+  rewrite Hd. apply chunks_whole; [unfold p; lia|exact HFR|].
+  rewrite (concat_length_const p RR HFR). unfold p. nia.
 Qed.
 
 Lemma skipn_skipn_Z {A} (a b : Z) (l : list A) : 0 <= a -> 0 <= b ->
   skipn (Z.to_nat b) (skipn (Z.to_nat a) l) = skipn (Z.to_nat (a + b)) l.
 Proof. intros Ha Hb. rewrite Z2Nat.inj_add by lia. now rewrite skipn_add. Qed.
 
-(* LasReader.read_points with points_read = pr *)
+(* the library's counter after read_points(n): what was ASKED is counted, whatever was obtained *)
+Definition next_pr (count pr n : Z) : Z :=
+  let left := count - pr in if left <=? 0 then pr else pr + (if n <? 0 then left else Z.min n left).
+(* ... after a chunk iterator: it stops at the first empty record (nothing asked, or nothing stored any more) *)
+Fixpoint chunks_pr (fuel : nat) (count stored k pr : Z) : Z :=
+  match fuel with
+  | O => pr
+  | S fu => let pr1 := next_pr count pr k in
+            if Z.min pr1 stored <=? pr then pr1 else chunks_pr fu count stored k pr1
+  end.
+Fixpoint steps_pr (fuel : nat) (count stored : Z) (steps : list step) (pr : Z) : Z :=
+  match steps with
+  | [] => pr
+  | SChunks k :: more => steps_pr fuel count stored more (chunks_pr fuel count stored k pr)
+  | SPoints n :: more => steps_pr fuel count stored more (next_pr count pr n)
+  end.
+
+Lemma next_pr_bounds count pr n : 0 <= pr <= Z.max 0 count -> pr <= next_pr count pr n <= Z.max 0 count.
+Proof. intros H. unfold next_pr. cbv zeta. destruct (count - pr <=? 0) eqn:E; [lia|]. destruct (n <? 0) eqn:En; lia. Qed.
+
+(* LasReader.read_points with points_read = pr, on a file that stores the records R (all those the header announces, or
+   fewer and then nothing else) *)
 Lemma read_points_spec c rh f R tail pr n s : 0 < rh_psize rh ->
-  Forall (fun r => length r = Z.to_nat (rh_psize rh)) R -> len R = Z.max 0 (h_count rh) ->
-  0 <= pr <= len R -> pinv f R tail pr s ->
-  exists X pr' s', read_points c rh pr n s = (Ok X, pr', s') /\ pr <= pr' <= len R /\ pinv f R tail pr' s'
-    /\ skipn (Z.to_nat pr) R = X ++ skipn (Z.to_nat pr') R /\ (n < 0 -> pr' = len R).
+  Forall (fun r => length r = Z.to_nat (rh_psize rh)) R -> len R <= Z.max 0 (h_count rh) ->
+  (len R = Z.max 0 (h_count rh) \/ tail = []) ->
+  0 <= pr <= Z.max 0 (h_count rh) -> pinv f R tail pr s ->
+  exists X s', read_points c rh pr n s = (Ok X, next_pr (h_count rh) pr n, s')
+    /\ pinv f R tail (next_pr (h_count rh) pr n) s'
+    /\ skipn (Z.to_nat pr) R = X ++ skipn (Z.to_nat (next_pr (h_count rh) pr n)) R
+    /\ (X = [] <-> Z.min (next_pr (h_count rh) pr n) (len R) <= pr)
+    /\ (n < 0 -> next_pr (h_count rh) pr n = Z.max 0 (h_count rh)).
 Proof.
-  intros Hps HF HR Hpr (I1 & I2 & I3). unfold read_points.
+  intros Hps HF HR Hcase Hpr (I1 & I2 & I3). unfold read_points, next_pr. cbv zeta.
+  pose proof (len_nonneg R) as HRn.
   destruct (h_count rh - pr <=? 0) eqn:El.
-  - exists [], pr, s. repeat split; try assumption; try lia.
+  - exists [], s. split; [reflexivity|]. split; [repeat split; assumption|]. split; [reflexivity|]. split; [split; [lia|reflexivity]|lia].
   - set (m := if n <? 0 then h_count rh - pr else Z.min n (h_count rh - pr)).
-    assert (0 <= m <= len R - pr) as Hm by (unfold m; destruct (n <? 0) eqn:En; lia).
+    assert (0 <= m <= Z.max 0 (h_count rh) - pr) as Hm by (unfold m; destruct (n <? 0) eqn:En; lia).
     assert (Forall (fun r => length r = Z.to_nat (rh_psize rh)) (skipn (Z.to_nat pr) R)) as HF'.
     { apply Forall_forall. intros x Hx. rewrite Forall_forall in HF. apply HF.
       rewrite <- (firstn_skipn (Z.to_nat pr) R). apply in_or_app. now right. }
-    assert (len (skipn (Z.to_nat pr) R) = len R - pr) as Hls by (unfold len in *; rewrite skipn_length; lia).
-    destruct (read_n_points_spec c (rh_psize rh) m s (skipn (Z.to_nat pr) R) tail Hps ltac:(lia) HF' I2 I3)
+    assert (len (skipn (Z.to_nat pr) R) = Z.max 0 (len R - pr)) as Hls by (unfold len in *; rewrite skipn_length; lia).
+    destruct (read_n_points_spec c (rh_psize rh) m s (skipn (Z.to_nat pr) R) tail Hps ltac:(lia)
+                ltac:(destruct Hcase as [Hc|Hc]; [left; lia|right; exact Hc]) HF' I2 I3)
       as (s' & E & S1 & S2 & S3).
-    rewrite E. exists (firstn (Z.to_nat m) (skipn (Z.to_nat pr) R)), (pr + m), s'.
-    split; [reflexivity|]. split; [lia|]. split; [|split].
+    rewrite E. exists (firstn (Z.to_nat m) (skipn (Z.to_nat pr) R)), s'.
+    split; [reflexivity|]. split; [|split; [|split]].
     + split; [congruence|]. split; [exact S2|]. rewrite S3, skipn_skipn_Z by lia. reflexivity.
     + rewrite <- skipn_skipn_Z by lia. now rewrite firstn_skipn.
+    + split.
+      * intros HX. apply (f_equal (@length _)) in HX. rewrite firstn_length, skipn_length in HX. cbn [length] in HX. unfold len in *. lia.
+      * intros HX. apply length_zero_iff_nil. rewrite firstn_length, skipn_length. unfold len in *. lia.
     + intros Hn. unfold m. destruct (n <? 0) eqn:En; lia.
 Qed.
 
 Lemma chunk_loop_spec c rh f R tail k : 0 < rh_psize rh ->
-  Forall (fun r => length r = Z.to_nat (rh_psize rh)) R -> len R = Z.max 0 (h_count rh) ->
-  forall fuel pr s, 0 <= pr <= len R -> pinv f R tail pr s ->
-  exists X pr' s', chunk_loop fuel c rh k pr s = (Ok X, pr', s') /\ pr <= pr' <= len R /\ pinv f R tail pr' s'
+  Forall (fun r => length r = Z.to_nat (rh_psize rh)) R -> len R <= Z.max 0 (h_count rh) ->
+  (len R = Z.max 0 (h_count rh) \/ tail = []) ->
+  forall fuel pr s, 0 <= pr <= Z.max 0 (h_count rh) -> pinv f R tail pr s ->
+  let pr' := chunks_pr fuel (h_count rh) (len R) k pr in
+  exists X s', chunk_loop fuel c rh k pr s = (Ok X, pr', s') /\ pr <= pr' <= Z.max 0 (h_count rh) /\ pinv f R tail pr' s'
     /\ skipn (Z.to_nat pr) R = X ++ skipn (Z.to_nat pr') R.
 Proof.
-  intros Hps HF HR. induction fuel as [|fu IH]; intros pr s Hpr Hinv.
-  - exists [], pr, s. split; [reflexivity|]. split; [lia|]. split; [exact Hinv|reflexivity].
-  - cbn [chunk_loop].
-    destruct (read_points_spec c rh f R tail pr k s Hps HF HR Hpr Hinv) as (X & pr1 & s1 & E & P1 & P2 & P3 & _).
+  intros Hps HF HR Hcase. induction fuel as [|fu IH]; intros pr s Hpr Hinv.
+  - exists [], s. split; [reflexivity|]. split; [cbn; lia|]. split; [exact Hinv|reflexivity].
+  - cbn [chunk_loop chunks_pr]. cbv zeta.
+    destruct (read_points_spec c rh f R tail pr k s Hps HF HR Hcase Hpr Hinv) as (X & s1 & E & P2 & P3 & P4 & _).
+    pose proof (next_pr_bounds (h_count rh) pr k Hpr) as Hb.
     rewrite E. destruct X as [|r0 X].
-    + exists [], pr1, s1. split; [reflexivity|]. split; [lia|]. split; [exact P2|exact P3].
-    + destruct (IH pr1 s1 ltac:(lia) P2) as (X2 & pr2 & s2 & E2 & Q1 & Q2 & Q3).
-      rewrite E2. exists ((r0 :: X) ++ X2), pr2, s2. split; [reflexivity|]. split; [lia|]. split; [exact Q2|].
+    + destruct (Z.min (next_pr (h_count rh) pr k) (len R) <=? pr) eqn:Em; [|exfalso; apply Z.leb_gt in Em; destruct P4 as [P4 _]; specialize (P4 eq_refl); lia].
+      exists [], s1. split; [reflexivity|]. split; [lia|]. split; [exact P2|exact P3].
+    + destruct (Z.min (next_pr (h_count rh) pr k) (len R) <=? pr) eqn:Em; [apply Z.leb_le in Em; destruct P4 as [_ P4]; specialize (P4 Em); discriminate|].
+      destruct (IH (next_pr (h_count rh) pr k) s1 ltac:(lia) P2) as (X2 & s2 & E2 & Q1 & Q2 & Q3).
+      rewrite E2. exists ((r0 :: X) ++ X2), s2. split; [reflexivity|]. split; [lia|]. split; [exact Q2|].
+      rewrite P3, Q3, app_assoc. reflexivity.
+Qed.
+
+Lemma run_steps_spec c rh f R tail fuel : 0 < rh_psize rh ->
+  Forall (fun r => length r = Z.to_nat (rh_psize rh)) R -> len R <= Z.max 0 (h_count rh) ->
+  (len R = Z.max 0 (h_count rh) \/ tail = []) ->
+  forall steps pr s, 0 <= pr <= Z.max 0 (h_count rh) -> pinv f R tail pr s ->
+  let pr' := steps_pr fuel (h_count rh) (len R) steps pr in
+  exists X s', run_steps fuel c rh steps pr s = (Ok X, pr', s') /\ pr <= pr' <= Z.max 0 (h_count rh) /\ pinv f R tail pr' s'
+    /\ skipn (Z.to_nat pr) R = X ++ skipn (Z.to_nat pr') R.
+Proof.
+  intros Hps HF HR Hcase. induction steps as [|st more IH]; intros pr s Hpr Hinv.
+  - exists [], s. split; [reflexivity|]. split; [cbn; lia|]. split; [exact Hinv|reflexivity].
+  - cbn [run_steps steps_pr]. destruct st as [k|n].
+    + destruct (chunk_loop_spec c rh f R tail k Hps HF HR Hcase fuel pr s Hpr Hinv) as (X & s1 & E & P1 & P2 & P3).
+      cbv zeta in E, P1, P2, P3. rewrite E.
+      destruct (IH (chunks_pr fuel (h_count rh) (len R) k pr) s1 ltac:(lia) P2) as (X2 & s2 & E2 & Q1 & Q2 & Q3). cbv zeta in E2, Q1, Q2, Q3. rewrite E2.
+      exists (X ++ X2), s2. split; [reflexivity|]. split; [cbv zeta; lia|]. split; [exact Q2|].
+      rewrite P3, Q3, app_assoc. reflexivity.
+    + destruct (read_points_spec c rh f R tail pr n s Hps HF HR Hcase Hpr Hinv) as (X & s1 & E & P2 & P3 & _ & _).
+      pose proof (next_pr_bounds (h_count rh) pr n Hpr) as Hb.
+      rewrite E.
+      destruct (IH (next_pr (h_count rh) pr n) s1 ltac:(lia) P2) as (X2 & s2 & E2 & Q1 & Q2 & Q3). cbv zeta in E2, Q1, Q2, Q3. rewrite E2.
+      exists (X ++ X2), s2. split; [reflexivity|]. split; [cbv zeta; lia|]. split; [exact Q2|].
       rewrite P3, Q3, app_assoc. reflexivity.
 Qed.
 
@@ -712,27 +842,39 @@ Lemma avail_seek p s : avail (s_seek p s) = skipn (Z.to_nat p) (st_bytes s).
 Proof. reflexivity. Qed.
 
 (* LasHeader.read_evlrs on a seekable stream: the EVLRs found by seeking, position restored *)
-Lemma hdr_read_evlrs_seekable c rh f s : c_seekable c = true -> c_has_seekable c = true -> st_bytes s = f -> bytes_ok f = true ->
+Lemma hdr_read_evlrs_seekable c rh f s : can_seek c = true -> st_bytes s = f -> bytes_ok f = true ->
   0 <= st_pos s -> 0 <= h_evstart rh ->
   match evlrs_of f rh with
   | Ok ev => exists s', hdr_read_evlrs c rh s = (Ok (with_evlrs rh ev), s') /\ st_bytes s' = f /\ st_pos s' = st_pos s
   | Err e => exists s', hdr_read_evlrs c rh s = (Err e, s') /\ st_bytes s' = f
   end.
 Proof.
-  intros Hc Hhs Hb Hok Hp Hst. unfold evlrs_of, hdr_read_evlrs.
+  intros Hc Hb Hok Hp Hst. unfold evlrs_of, hdr_read_evlrs.
   destruct (h_minor rh >=? 4); [|exists s; repeat split; assumption].
-  destruct (h_nev rh >? 0); [|exists s; repeat split; assumption].
-  rewrite Hhs. cbn [negb].
-  unfold s_seekable. rewrite Hc. unfold s_tell.
+  destruct (s_can_seek_spec c s) as (A1 & _ & A3 & A4). destruct (s_can_seek c s) as [sk s1]. cbn [fst snd] in A1, A3, A4. subst sk. rewrite Hc.
+  destruct (h_nev rh >? 0); [|exists s1; repeat split; congruence].
+  unfold s_tell.
   set (s3 := s_seek (h_evstart rh) _).
-  destruct (sread_vlrs_spec (Z.to_nat (h_nev rh)) s3 Hst ltac:(unfold s3; cbn [s_seek st_bytes]; rewrite Hb; exact Hok)) as [V1 V2].
-  assert (avail s3 = skipn (Z.to_nat (h_evstart rh)) f) as Ha by (unfold s3; rewrite avail_seek; cbn [st_bytes]; now rewrite Hb).
+  destruct (sread_vlrs_spec (Z.to_nat (h_nev rh)) s3 Hst ltac:(unfold s3; cbn [s_seek st_bytes]; rewrite A3, Hb; exact Hok)) as [V1 V2].
+  assert (avail s3 = skipn (Z.to_nat (h_evstart rh)) f) as Ha by (unfold s3; rewrite avail_seek; cbn [st_bytes]; now rewrite A3, Hb).
   rewrite Ha in V1. destruct (sread_vlrs (Z.to_nat (h_nev rh)) s3) as [r s4]. cbn [fst snd] in V1, V2.
   rewrite V1. cbn [st_bytes] in V2.
   destruct (dec_vlrs true (Z.to_nat (h_nev rh)) (skipn (Z.to_nat (h_evstart rh)) f)) as [[l rest]|e].
-  - eexists. split; [reflexivity|]. cbn [s_seek st_bytes st_pos fst]. split; [|reflexivity].
-    rewrite V2. unfold s3. cbn [s_seek st_bytes]. exact Hb.
-  - eexists. split; [reflexivity|]. rewrite V2. unfold s3. cbn [s_seek st_bytes]. exact Hb.
+  - eexists. split; [reflexivity|]. cbn [s_seek st_bytes st_pos fst]. split; [|exact A4].
+    rewrite V2. unfold s3. cbn [s_seek st_bytes]. now rewrite A3.
+  - eexists. split; [reflexivity|]. rewrite V2. unfold s3. cbn [s_seek st_bytes]. now rewrite A3.
+Qed.
+
+(* ... on a source that does not say it can seek: nothing is loaded, the source stays where it is *)
+Lemma hdr_read_evlrs_not_seekable c rh s : can_seek c = false ->
+  exists s', hdr_read_evlrs c rh s
+             = (Ok (with_evlrs rh (if h_minor rh >=? 4 then if h_nev rh >? 0 then None else Some [] else None)), s')
+    /\ st_bytes s' = st_bytes s /\ st_pos s' = st_pos s.
+Proof.
+  intros Hc. unfold hdr_read_evlrs.
+  destruct (h_minor rh >=? 4); [|exists s; repeat split].
+  destruct (s_can_seek_spec c s) as (A1 & _ & A3 & A4). destruct (s_can_seek c s) as [sk s1]. cbn [fst snd] in A1, A3, A4. subst sk. rewrite Hc.
+  destruct (h_nev rh >? 0); exists s1; repeat split; assumption.
 Qed.
 
 Lemma with_evlrs_fields rh ev : rh_fields (with_evlrs rh ev) = rh_fields rh.
@@ -749,84 +891,82 @@ Qed.
 (* ------------------------------------------------------------------------------------ *)
 (* F. opening, finishing, and the whole read                                             *)
 (* ------------------------------------------------------------------------------------ *)
-Lemma open_reader_exact c e f rh : laid_out f rh -> can_answer c rh ->
+(* what opening needs of the file: a header that parses, uncompressed, and the bytes up to the first point *)
+Definition openable (f : list Z) (rh : rheader) : Prop :=
+  dec_header f false = Ok rh /\ bytes_ok f = true /\ rh_compressed rh = false /\ 0 < rh_psize rh /\ rh_offset rh <= len f.
+
+Lemma laid_out_openable f rh : laid_out f rh -> openable f rh.
+Proof.
+  intros (Hd & Hok & Hcomp & Hps & Hpp). destruct (dec_header_offset _ _ _ Hd) as [_ Hoff].
+  repeat split; try assumption. unfold points_present in Hpp. nia.
+Qed.
+
+Lemma open_reader_exact c e f rh : openable f rh ->
   exists s1, st_bytes s1 = f /\
    ((exists rh1, open_reader c e (mkSt f 0 []) = (Ok rh1, s1) /\ st_pos s1 = rh_offset rh
         /\ (if loads_at_open c e rh then exists ev, evlrs_of f rh = Ok ev /\ rh1 = with_evlrs rh ev else rh1 = rh))
     \/ (exists er, open_reader c e (mkSt f 0 []) = (Err er, s1) /\ evlrs_of f rh = Err er /\ loads_at_open c e rh = true)).
 Proof.
-  intros (Hd & Hok & Hcomp & Hps & Hpp) Hans.
+  intros (Hd & Hok & Hcomp & Hps & Hle).
   destruct (dec_header_offset _ _ _ Hd) as [_ Hoff]. destruct (dec_header_pre _ _ _ Hd) as [Hl _].
-  assert (rh_offset rh <= len f) as Hle.
-  { unfold points_present in Hpp. nia. }
   destruct (prefetch_ok f false rh Hd Hle) as (s1 & P1 & P2 & P3).
   unfold open_reader. rewrite P1, (dec_header_prefetched f Hl), Hd, Hcomp.
   unfold loads_at_open.
   destruct e; cbn [andb]; [|exists s1; split; [exact P2|]; left; exists rh; repeat split; auto].
   assert (0 <= h_evstart rh) as Hst by (apply (header_int_nonneg f false); auto).
   destruct (dec_header_false_evlrs _ _ Hd) as [_ Hwn].
-  destruct (needs_evlrs rh) eqn:Hn; unfold needs_evlrs in Hn.
-  - assert (c_has_seekable c = true) as Hhs by (destruct Hans as [H|H]; [exact H|unfold needs_evlrs in H; congruence]).
-    cbn [negb]. rewrite orb_false_r.
-    destruct (c_seekable c) eqn:Hc.
-    + pose proof (hdr_read_evlrs_seekable c rh f s1 Hc Hhs P2 Hok ltac:(lia) Hst) as Hs.
-      destruct (evlrs_of f rh) as [ev|er].
-      * destruct Hs as (s' & E & B & Ps). exists s'. split; [exact B|]. left. exists (with_evlrs rh ev).
-        split; [exact E|]. split; [lia|]. exists ev. split; reflexivity.
-      * destruct Hs as (s' & E & B). exists s'. split; [exact B|]. right. exists er. repeat split; [exact E].
-    + unfold hdr_read_evlrs. apply andb_prop in Hn. destruct Hn as [H4 Hne]. rewrite H4, Hne, Hhs. cbn [negb].
-      unfold s_seekable. rewrite Hc. eexists. split; [|left; exists rh; split; [rewrite Hwn; reflexivity|]]; cbn [st_bytes st_pos]; auto.
-  - cbn [negb]. rewrite orb_true_r.
-    unfold hdr_read_evlrs, evlrs_of.
-    destruct (h_minor rh >=? 4).
-    + destruct (h_nev rh >? 0); [discriminate|].
-      exists s1. split; [exact P2|]. left. eexists. split; [reflexivity|]. split; [exact P3|]. eexists. split; reflexivity.
-    + exists s1. split; [exact P2|]. left. eexists. split; [reflexivity|]. split; [exact P3|]. eexists. split; reflexivity.
+  destruct (can_seek c) eqn:Hc; cbn [orb].
+  - pose proof (hdr_read_evlrs_seekable c rh f s1 Hc P2 Hok ltac:(lia) Hst) as Hs.
+    destruct (evlrs_of f rh) as [ev|er].
+    + destruct Hs as (s' & E & B & Ps). exists s'. split; [exact B|]. left. exists (with_evlrs rh ev).
+      split; [exact E|]. split; [lia|]. exists ev. split; reflexivity.
+    + destruct Hs as (s' & E & B). exists s'. split; [exact B|]. right. exists er. repeat split; [exact E].
+  - destruct (hdr_read_evlrs_not_seekable c rh s1 Hc) as (s' & E & B & Ps).
+    exists s'. split; [congruence|]. left. eexists. split; [exact E|]. split; [congruence|].
+    unfold needs_evlrs, evlrs_of.
+    destruct (h_minor rh >=? 4); cbn [andb negb]; [|eexists; split; reflexivity].
+    destruct (h_nev rh >? 0); cbn [negb]; [exact Hwn|eexists; split; reflexivity].
 Qed.
 
-Lemma open_reader_spec c e f rh : laid_out f rh -> can_answer c rh ->
+Lemma open_reader_spec c e f rh : openable f rh ->
   exists s1, st_bytes s1 = f /\
    ((exists rh1, open_reader c e (mkSt f 0 []) = (Ok rh1, s1) /\ st_pos s1 = rh_offset rh
         /\ (rh1 = rh \/ exists ev, evlrs_of f rh = Ok ev /\ rh1 = with_evlrs rh ev))
     \/ (exists er, open_reader c e (mkSt f 0 []) = (Err er, s1) /\ evlrs_of f rh = Err er)).
 Proof.
-  intros Hlo Hans. destruct (open_reader_exact c e f rh Hlo Hans) as (s1 & B & [(rh1 & E & P & H)|(er & E & H & _)]).
+  intros Hlo. destruct (open_reader_exact c e f rh Hlo) as (s1 & B & [(rh1 & E & P & H)|(er & E & H & _)]).
   - exists s1. split; [exact B|]. left. exists rh1. split; [exact E|]. split; [exact P|].
     destruct (loads_at_open c e rh); [right; exact H|left; exact H].
   - exists s1. split; [exact B|]. right. exists er. split; assumption.
 Qed.
 
-Lemma finish_evlrs_spec c f rh rh1 s : laid_out f rh -> (c_seekable c = true \/ evlrs_adjacent rh) -> can_answer c rh ->
+Lemma finish_evlrs_spec c f rh rh1 s : openable f rh ->
+  (can_seek c = true \/ (h_minor rh >= 4 -> h_nev rh > 0 -> avail s = skipn (Z.to_nat (h_evstart rh)) f)) ->
   st_bytes s = f -> 0 <= st_pos s ->
-  avail s = skipn (Z.to_nat (rh_offset rh + Z.max 0 (h_count rh) * rh_psize rh)) f ->
   (rh1 = rh \/ exists ev, evlrs_of f rh = Ok ev /\ rh1 = with_evlrs rh ev) ->
   match evlrs_of f rh with
   | Ok ev => exists s', finish_evlrs c rh1 s = (Ok (with_evlrs rh ev), s')
   | Err e => exists s', finish_evlrs c rh1 s = (Err e, s')
   end.
 Proof.
-  intros (Hd & Hok & Hcomp & Hps & Hpp) Hcase Hans Hb Hp Ha [->|(ev & Hev & ->)].
+  intros (Hd & Hok & Hcomp & Hps & Hle) Hcase Hb Hp [->|(ev & Hev & ->)].
   - destruct (dec_header_false_evlrs _ _ Hd) as [Hnone Hwn].
     assert (0 <= h_evstart rh) as Hst by (apply (header_int_nonneg f false); auto).
     unfold finish_evlrs. rewrite Hnone. cbn [is_none]. rewrite !andb_true_r.
     destruct (h_minor rh >=? 4) eqn:E4.
     + destruct (h_nev rh >? 0) eqn:En; cbn [andb].
-      * assert (c_has_seekable c = true) as Hhs
-          by (destruct Hans as [H|H]; [exact H|unfold needs_evlrs in H; rewrite E4, En in H; discriminate]).
-        rewrite Hhs. cbn [negb].
-        unfold s_seekable. destruct (c_seekable c) eqn:Hc.
-        -- match goal with |- context [hdr_read_evlrs c rh ?s1] =>
-             pose proof (hdr_read_evlrs_seekable c rh f s1 Hc Hhs Hb Hok Hp Hst) as Hs end.
+      * destruct (s_can_seek_spec c s) as (A1 & _ & A3 & A4). destruct (s_can_seek c s) as [sk s1]. cbn [fst snd] in A1, A3, A4. subst sk.
+        destruct (can_seek c) eqn:Hc.
+        -- pose proof (hdr_read_evlrs_seekable c rh f s1 Hc ltac:(congruence) Hok ltac:(lia) Hst) as Hs.
            destruct (evlrs_of f rh) as [ev|er].
            ++ destruct Hs as (s' & E & _). exists s'. exact E.
            ++ destruct Hs as (s' & E & _). exists s'. exact E.
         -- destruct Hcase as [Hc'|Hadj]; [congruence|].
            specialize (Hadj ltac:(lia) ltac:(lia)).
-           match goal with |- context [sread_vlrs ?n ?s1] =>
-             destruct (sread_vlrs_spec n s1 Hp ltac:(cbn [st_bytes]; rewrite Hb; exact Hok)) as [V1 _];
-             assert (avail s1 = avail s) as Hav by reflexivity;
-             destruct (sread_vlrs n s1) as [r s2] end.
-           cbn [fst] in V1. rewrite Hav, Ha, <- Hadj in V1. rewrite V1.
+           destruct (sread_vlrs_spec (Z.to_nat (h_nev rh)) s1 ltac:(lia) ltac:(rewrite A3, Hb; exact Hok)) as [V1 _].
+           assert (avail s1 = avail s) as Hav by (unfold avail; now rewrite A3, A4).
+           destruct (sread_vlrs (Z.to_nat (h_nev rh)) s1) as [r s2].
+           cbn [fst] in V1. rewrite Hav, Hadj in V1. rewrite V1.
            unfold evlrs_of. rewrite E4, En.
            destruct (dec_vlrs true (Z.to_nat (h_nev rh)) (skipn (Z.to_nat (h_evstart rh)) f)) as [[l rest]|er]; eexists; reflexivity.
       * unfold evlrs_of. rewrite E4, En. eexists. reflexivity.
@@ -855,127 +995,208 @@ Proof.
     + exact Hsk.
 Qed.
 
-(* once the file is open: all the records are read (whole or by chunks), and the source is left right after the last
-   point for the EVLR part of read() *)
-Lemma read_via_points c e chunk f rh rh1 s1 R tail : laid_out f rh ->
-  Forall (fun r => length r = Z.to_nat (rh_psize rh)) R -> len R = Z.max 0 (h_count rh) ->
+Lemma prefix_of_split {A} (R X : list A) n : R = X ++ skipn n R -> X = firstn n R.
+Proof. intros H. apply (app_inv_tail (skipn n R)). rewrite firstn_skipn. symmetry. exact H. Qed.
+
+(* once the file is open: the steps hand out a prefix of the stored records, read() the rest, and the source is left right
+   after the last stored record for the EVLR part of read() *)
+Lemma read_via_points c e steps f rh rh1 s1 R tail : openable f rh ->
+  Forall (fun r => length r = Z.to_nat (rh_psize rh)) R -> len R <= Z.max 0 (h_count rh) ->
+  (len R = Z.max 0 (h_count rh) \/ tail = []) ->
   skipn (Z.to_nat (rh_offset rh)) f = concat R ++ tail ->
-  tail = skipn (Z.to_nat (rh_offset rh + Z.max 0 (h_count rh) * rh_psize rh)) f ->
   open_reader c e (mkSt f 0 []) = (Ok rh1, s1) -> st_bytes s1 = f -> st_pos s1 = rh_offset rh ->
   (rh1 = rh \/ exists ev, evlrs_of f rh = Ok ev /\ rh1 = with_evlrs rh ev) ->
-  exists s3, st_bytes s3 = f /\ 0 <= st_pos s3
-    /\ avail s3 = skipn (Z.to_nat (rh_offset rh + Z.max 0 (h_count rh) * rh_psize rh)) f
-    /\ fst (read_via c e chunk f) = match fst (finish_evlrs c rh1 s3) with Ok rh' => Ok (mkLF rh' R) | Err er => Err er end.
+  let m := steps_pr (S (length f)) (h_count rh) (len R) steps 0 in
+  0 <= m <= Z.max 0 (h_count rh)
+  /\ fst (consume_via c e steps f) = Ok (mkLF rh1 (firstn (Z.to_nat m) R))
+  /\ exists s3, st_bytes s3 = f /\ 0 <= st_pos s3 /\ avail s3 = tail
+    /\ fst (read_via c e steps f) = match fst (finish_evlrs c rh1 s3) with Ok rh' => Ok (mkLF rh' R) | Err er => Err er end.
 Proof.
-  intros Hlo HF HR Hsk Htail E1 B1 P1 Hrh1.
-  pose proof Hlo as (Hd & Hok & Hcomp & Hps & Hpp).
+  intros Hop HF HR Hcase Hsk E1 B1 P1 Hrh1 m.
+  pose proof Hop as (Hd & Hok & Hcomp & Hps & Hle).
   destruct (dec_header_offset _ _ _ Hd) as [_ Hoff].
-  unfold read_via. rewrite E1.
   assert (rh_fields rh1 = rh_fields rh) as Hfields by (destruct Hrh1 as [->|(ev & _ & ->)]; reflexivity).
   assert (rh_psize rh1 = rh_psize rh) as Hps1 by (destruct Hrh1 as [->|(ev & _ & ->)]; reflexivity).
   assert (h_count rh1 = h_count rh) as Hc1 by (unfold h_count; now rewrite Hfields).
   assert (pinv f R tail 0 s1) as Hinv0.
   { split; [exact B1|]. split; [lia|]. unfold avail. rewrite B1, P1. exact Hsk. }
   pose proof (len_nonneg R) as HRn.
-  assert (exists X pr1 s2, match chunk with None => (Ok [], 0, s1) | Some k => chunk_loop (S (length f)) c rh1 k 0 s1 end = (Ok X, pr1, s2)
-            /\ 0 <= pr1 <= len R /\ pinv f R tail pr1 s2 /\ R = X ++ skipn (Z.to_nat pr1) R) as (X & pr1 & s2 & E2 & Hpr1 & Hinv1 & HX).
-  { destruct chunk as [k|].
-    - destruct (chunk_loop_spec c rh1 f R tail k ltac:(lia) ltac:(now rewrite Hps1) ltac:(now rewrite Hc1) (S (length f)) 0 s1 ltac:(lia) Hinv0)
-        as (X & pr1 & s2 & E & A & B & C). exists X, pr1, s2. split; [exact E|]. split; [lia|]. split; [exact B|exact C].
-    - exists [], 0, s1. split; [reflexivity|]. split; [lia|]. split; [exact Hinv0|reflexivity]. }
-  rewrite E2.
-  destruct (read_points_spec c rh1 f R tail pr1 (-1) s2 ltac:(lia) ltac:(now rewrite Hps1) ltac:(now rewrite Hc1) Hpr1 Hinv1)
-    as (Y & pr2 & s3 & E3 & Hpr2 & Hinv2 & HY & Hall).
-  rewrite E3. specialize (Hall ltac:(lia)). subst pr2.
-  assert (X ++ Y = R) as HXY.
-  { rewrite HX at 1. f_equal. rewrite HY. unfold len. rewrite Nat2Z.id, skipn_all, app_nil_r. reflexivity. }
-  destruct Hinv2 as (B3 & P3 & A3).
-  exists s3. split; [exact B3|]. split; [exact P3|]. split.
-  - rewrite A3. unfold len. rewrite Nat2Z.id, skipn_all. cbn [concat app]. exact Htail.
-  - destruct (finish_evlrs c rh1 s3) as [[rh'|er] s4]; cbn [fst]; [now rewrite HXY|reflexivity].
+  destruct (run_steps_spec c rh1 f R tail (S (length f)) ltac:(lia) ltac:(now rewrite Hps1) ltac:(rewrite Hc1; lia)
+              ltac:(now rewrite Hc1) steps 0 s1 ltac:(rewrite Hc1; lia) Hinv0) as (X & s2 & E2 & Hpr1 & Hinv1 & HX).
+  cbv zeta in E2, Hpr1, Hinv1, HX. rewrite Hc1 in E2, Hpr1, Hinv1, HX. fold m in E2, Hpr1, Hinv1, HX.
+  cbn [skipn Z.to_nat] in HX.
+  pose proof (prefix_of_split _ _ _ HX) as HXm.
+  split; [lia|]. split.
+  - unfold consume_via. rewrite E1, E2. cbn [fst]. now rewrite HXm.
+  - unfold read_via. rewrite E1, E2.
+    destruct (read_points_spec c rh1 f R tail m (-1) s2 ltac:(lia) ltac:(now rewrite Hps1) ltac:(rewrite Hc1; lia)
+                ltac:(now rewrite Hc1) ltac:(rewrite Hc1; lia) Hinv1) as (Y & s3 & E3 & Hinv2 & HY & _ & Hall).
+    rewrite E3. specialize (Hall ltac:(lia)). rewrite Hall, Hc1 in Hinv2, HY.
+    assert (skipn (Z.to_nat (Z.max 0 (h_count rh))) R = []) as Hend by (apply skipn_all2; unfold len in *; lia).
+    rewrite Hend in HY. rewrite app_nil_r in HY.
+    assert (X ++ Y = R) as HXY by (rewrite HX at 1; now rewrite HY).
+    destruct Hinv2 as (B3 & P3 & A3). rewrite Hend in A3. cbn [concat app] in A3.
+    exists s3. split; [exact B3|]. split; [exact P3|]. split; [exact A3|].
+    destruct (finish_evlrs c rh1 s3) as [[rh'|er] s4]; cbn [fst]; [now rewrite HXY|reflexivity].
 Qed.
 
-(* whatever the capabilities, the EVLR timing and the chunking: what is read is what read_file reads *)
-Theorem read_via_spec : forall c e chunk f rh, laid_out f rh -> (c_seekable c = true \/ evlrs_adjacent rh) -> can_answer c rh ->
-  fst (read_via c e chunk f) = read_file f.
+(* whatever the capabilities, the EVLR timing and the way the reader is consumed: what is read is what read_file reads *)
+Theorem read_via_spec : forall c e steps f rh, laid_out f rh -> (can_seek c = true \/ evlrs_adjacent rh) ->
+  fst (read_via c e steps f) = read_file f.
 Proof.
-  intros c e chunk f rh Hlo Hcase Hans.
+  intros c e steps f rh Hlo Hcase. pose proof (laid_out_openable f rh Hlo) as Hop.
   destruct (laid_out_decomp f rh Hlo) as (R & tail & HF & HR & Hsk & Htail).
   rewrite (read_file_spec f rh R tail Hlo HF HR Hsk).
-  destruct (open_reader_spec c e f rh Hlo Hans) as (s1 & B1 & [(rh1 & E1 & P1 & Hrh1)|(er & E1 & Hev)]).
-  - destruct (read_via_points c e chunk f rh rh1 s1 R tail Hlo HF HR Hsk Htail E1 B1 P1 Hrh1) as (s3 & B3 & P3 & Ha3 & ->).
-    pose proof (finish_evlrs_spec c f rh rh1 s3 Hlo Hcase Hans B3 P3 Ha3 Hrh1) as Hfin.
+  destruct (open_reader_spec c e f rh Hop) as (s1 & B1 & [(rh1 & E1 & P1 & Hrh1)|(er & E1 & Hev)]).
+  - destruct (read_via_points c e steps f rh rh1 s1 R tail Hop HF ltac:(lia) (or_introl HR) Hsk E1 B1 P1 Hrh1) as (_ & _ & s3 & B3 & P3 & Ha3 & ->).
+    assert (can_seek c = true \/ (h_minor rh >= 4 -> h_nev rh > 0 -> avail s3 = skipn (Z.to_nat (h_evstart rh)) f)) as Hcase'.
+    { destruct Hcase as [H|Hadj]; [left; exact H|right]. intros H4 Hn. rewrite Ha3, Htail, (Hadj H4 Hn). reflexivity. }
+    pose proof (finish_evlrs_spec c f rh rh1 s3 Hop Hcase' B3 P3 Hrh1) as Hfin.
     destruct (evlrs_of f rh) as [ev|er]; destruct Hfin as (s4 & E4); rewrite E4; reflexivity.
   - unfold read_via. rewrite E1, Hev. reflexivity.
 Qed.
 Print Assumptions read_via_spec.
 
-(* a source that does not even say whether it can seek (it offers read() and nothing else) cannot be used for a file
-   with EVLRs: the library has to ask, at opening or in read(); the outcome is the AttributeError, by every route *)
-Theorem bare_source_needs_seekable : forall c e chunk f rh, laid_out f rh -> c_has_seekable c = false -> needs_evlrs rh = true ->
-  fst (read_via c e chunk f) = Err EOther.
+(* a file cut inside its point block after a whole number of records: the stored records *)
+Definition stored_recs (f : list Z) (rh : rheader) : list (list Z) :=
+  let data := skipn (Z.to_nat (rh_offset rh)) f in chunks_of (length data) (Z.to_nat (rh_psize rh)) data.
+
+(* such a file reads the same through every source, however it is consumed: the header, the stored records, and whatever
+   EVLRs are found where the header says (a source that cannot seek looks at the end of the data: the same place when the
+   announced position is not inside the file) *)
+Theorem truncated_read : forall c e steps f rh stored, truncated f rh stored ->
+  (can_seek c = true \/ (h_minor rh >= 4 -> h_nev rh > 0 -> len f <= h_evstart rh)) ->
+  fst (read_via c e steps f)
+  = match evlrs_of f rh with Ok ev => Ok (mkLF (with_evlrs rh ev) (stored_recs f rh)) | Err er => Err er end
+  /\ len (stored_recs f rh) = stored.
 Proof.
-  intros c e chunk f rh Hlo Hhs Hn.
-  destruct (laid_out_decomp f rh Hlo) as (R & tail & HF & HR & Hsk & Htail).
-  pose proof Hlo as (Hd & Hok & Hcomp & Hps & Hpp).
-  destruct (dec_header_pre _ _ _ Hd) as [Hl _].
-  assert (rh_offset rh <= len f) as Hle by (unfold points_present in Hpp; nia).
-  destruct (prefetch_ok f false rh Hd Hle) as (s1 & P1 & P2 & P3).
-  pose proof Hn as Hn'. unfold needs_evlrs in Hn'. apply andb_prop in Hn'. destruct Hn' as [H4 Hne].
-  destruct e.
-  - unfold read_via, open_reader. rewrite P1, (dec_header_prefetched f Hl), Hd, Hcomp.
-    unfold hdr_read_evlrs. rewrite H4, Hne, Hhs. reflexivity.
-  - assert (open_reader c false (mkSt f 0 []) = (Ok rh, s1)) as E1
-      by (unfold open_reader; rewrite P1, (dec_header_prefetched f Hl), Hd, Hcomp; reflexivity).
-    destruct (read_via_points c false chunk f rh rh s1 R tail Hlo HF HR Hsk Htail E1 P2 P3 (or_introl eq_refl)) as (s3 & _ & _ & _ & ->).
-    destruct (dec_header_false_evlrs _ _ Hd) as [Hnone _].
-    unfold finish_evlrs. rewrite H4, Hne, Hnone, Hhs. reflexivity.
+  intros c e steps f rh stored (Hd & Hok & Hcomp & Hps & Hst & Hlen) Hcase.
+  destruct (dec_header_offset _ _ _ Hd) as [_ Hoff].
+  assert (openable f rh) as Hop by (repeat split; try assumption; nia).
+  set (R := stored_recs f rh).
+  set (d := skipn (Z.to_nat (rh_offset rh)) f).
+  assert (length d = (Z.to_nat stored * Z.to_nat (rh_psize rh))%nat) as Hd_len.
+  { unfold d. rewrite skipn_length. unfold len in Hlen. nia. }
+  destruct (chunks_concat (Z.to_nat (rh_psize rh)) ltac:(lia) (Z.to_nat stored) d (length d) Hd_len ltac:(nia)) as (C1 & C2 & C3).
+  change (chunks_of (length d) (Z.to_nat (rh_psize rh)) d) with R in C1, C2, C3.
+  assert (len R = stored) as HR by (unfold len; rewrite C3; lia).
+  split; [|exact HR].
+  assert (skipn (Z.to_nat (rh_offset rh)) f = concat R ++ []) as Hsk by (rewrite app_nil_r, C1; reflexivity).
+  destruct (open_reader_spec c e f rh Hop) as (s1 & B1 & [(rh1 & E1 & P1 & Hrh1)|(er & E1 & Hev)]).
+  - destruct (read_via_points c e steps f rh rh1 s1 R [] Hop C2 ltac:(lia) (or_intror eq_refl) Hsk E1 B1 P1 Hrh1) as (_ & _ & s3 & B3 & P3 & Ha3 & ->).
+    assert (can_seek c = true \/ (h_minor rh >= 4 -> h_nev rh > 0 -> avail s3 = skipn (Z.to_nat (h_evstart rh)) f)) as Hcase'.
+    { destruct Hcase as [H|Hend]; [left; exact H|right]. intros H4 Hn. rewrite Ha3. symmetry. apply skipn_all2.
+      specialize (Hend H4 Hn). unfold len in Hend. lia. }
+    pose proof (finish_evlrs_spec c f rh rh1 s3 Hop Hcase' B3 P3 Hrh1) as Hfin.
+    destruct (evlrs_of f rh) as [ev|er]; destruct Hfin as (s4 & E4); rewrite E4; reflexivity.
+  - unfold read_via. rewrite E1, Hev. reflexivity.
 Qed.
-Print Assumptions bare_source_needs_seekable.
+Print Assumptions truncated_read.
+
+Theorem truncated_independent : forall c c' e e' steps steps' f rh stored, truncated f rh stored ->
+  (h_minor rh >= 4 -> h_nev rh > 0 -> len f <= h_evstart rh) ->
+  fst (read_via c e steps f) = fst (read_via c' e' steps' f).
+Proof.
+  intros c c' e e' steps steps' f rh stored Ht Hend.
+  destruct (truncated_read c e steps f rh stored Ht (or_intror Hend)) as [-> _].
+  destruct (truncated_read c' e' steps' f rh stored Ht (or_intror Hend)) as [-> _]. reflexivity.
+Qed.
+Print Assumptions truncated_independent.
 
 (* the header the reader shows right after laspy.open, before anything is read: the file's, with the EVLRs loaded exactly
    when that was asked for and the source can seek (or there is none to load), left for read() (None) otherwise *)
-Theorem open_stage : forall f rh c e, laid_out f rh -> can_answer c rh ->
-  fst (open_via c e f) = if loads_at_open c e rh
-                         then match evlrs_of f rh with Ok ev => Ok (with_evlrs rh ev) | Err er => Err er end
-                         else Ok rh.
+Definition opened_header (c : caps) (e : bool) (f : list Z) (rh : rheader) : result rheader :=
+  if loads_at_open c e rh then match evlrs_of f rh with Ok ev => Ok (with_evlrs rh ev) | Err er => Err er end else Ok rh.
+
+Theorem open_stage : forall f rh c e, laid_out f rh -> fst (open_via c e f) = opened_header c e f rh.
 Proof.
-  intros f rh c e Hlo Hans. unfold open_via.
-  destruct (open_reader_exact c e f rh Hlo Hans) as (s1 & B & [(rh1 & E & P & H)|(er & E & H & L)]); rewrite E; cbn [fst].
+  intros f rh c e Hlo. apply laid_out_openable in Hlo. unfold open_via, opened_header.
+  destruct (open_reader_exact c e f rh Hlo) as (s1 & B & [(rh1 & E & P & H)|(er & E & H & L)]); rewrite E; cbn [fst].
   - destruct (loads_at_open c e rh); [destruct H as (ev & -> & ->); reflexivity|now rewrite H].
   - now rewrite L, H.
 Qed.
 Print Assumptions open_stage.
 
-Theorem open_stage_independent : forall f rh c c' e, laid_out f rh -> can_answer c rh -> can_answer c' rh ->
-  (needs_evlrs rh = false \/ c_seekable c = c_seekable c') ->
+Theorem open_stage_independent : forall f rh c c' e, laid_out f rh ->
+  (needs_evlrs rh = false \/ can_seek c = can_seek c') ->
   fst (open_via c e f) = fst (open_via c' e f).
 Proof.
-  intros f rh c c' e Hlo Ha Ha' H. rewrite (open_stage f rh c e Hlo Ha), (open_stage f rh c' e Hlo Ha').
+  intros f rh c c' e Hlo H. rewrite (open_stage f rh c e Hlo), (open_stage f rh c' e Hlo). unfold opened_header.
   assert (loads_at_open c e rh = loads_at_open c' e rh) as ->; [|reflexivity].
   unfold loads_at_open. destruct H as [->| ->]; [cbn [negb]; now rewrite !orb_true_r|reflexivity].
 Qed.
 Print Assumptions open_stage_independent.
 
+(* the reader BEFORE read(), however it was consumed (only inspected, chunk iterators, read_points): it shows the header it
+   showed when it was opened, and has handed out the first m records, m depending on the steps and the point count only *)
+Theorem before_read : forall f rh steps, laid_out f rh ->
+  exists m R, 0 <= m <= Z.max 0 (h_count rh) /\ read_file f = match evlrs_of f rh with Ok ev => Ok (mkLF (with_evlrs rh ev) R) | Err er => Err er end
+    /\ forall c e, fst (consume_via c e steps f)
+                   = match opened_header c e f rh with Ok rh1 => Ok (mkLF rh1 (firstn (Z.to_nat m) R)) | Err er => Err er end.
+Proof.
+  intros f rh steps Hlo. pose proof (laid_out_openable f rh Hlo) as Hop.
+  destruct (laid_out_decomp f rh Hlo) as (R & tail & HF & HR & Hsk & Htail).
+  exists (steps_pr (S (length f)) (h_count rh) (len R) steps 0), R.
+  assert (forall c e, 0 <= steps_pr (S (length f)) (h_count rh) (len R) steps 0 <= Z.max 0 (h_count rh) /\
+            fst (consume_via c e steps f)
+            = match opened_header c e f rh with Ok rh1 => Ok (mkLF rh1 (firstn (Z.to_nat (steps_pr (S (length f)) (h_count rh) (len R) steps 0)) R)) | Err er => Err er end) as Hall.
+  { intros c e. unfold opened_header.
+    destruct (open_reader_exact c e f rh Hop) as (s1 & B1 & [(rh1 & E1 & P1 & H)|(er & E1 & Hev & L)]).
+    - assert (rh1 = rh \/ exists ev, evlrs_of f rh = Ok ev /\ rh1 = with_evlrs rh ev) as Hrh1
+        by (destruct (loads_at_open c e rh); [right; exact H|left; exact H]).
+      destruct (read_via_points c e steps f rh rh1 s1 R tail Hop HF ltac:(lia) (or_introl HR) Hsk E1 B1 P1 Hrh1) as (Hm & Hc & _).
+      split; [exact Hm|]. rewrite Hc.
+      destruct (loads_at_open c e rh); [destruct H as (ev & -> & ->); reflexivity|now rewrite H].
+    - split.
+      + destruct (open_reader_exact (mkCaps false false false) false f rh Hop) as (s1' & B1' & [(rh1 & E1' & P1' & H)|(er' & _ & _ & L')]);
+          [|unfold loads_at_open in L'; discriminate].
+        assert (rh1 = rh \/ exists ev, evlrs_of f rh = Ok ev /\ rh1 = with_evlrs rh ev) as Hrh1 by (left; exact H).
+        destruct (read_via_points _ false steps f rh rh1 s1' R tail Hop HF ltac:(lia) (or_introl HR) Hsk E1' B1' P1' Hrh1) as (Hm & _). exact Hm.
+      + unfold consume_via. rewrite E1, L, Hev. reflexivity. }
+  split; [apply (Hall (mkCaps false false false) false)|].
+  split; [apply (read_file_spec f rh R tail Hlo HF HR Hsk)|].
+  intros c e. apply Hall.
+Qed.
+Print Assumptions before_read.
+
 (* the result does not depend on the access path *)
 Theorem access_path_independent : forall f rh c c' e e' k k', laid_out f rh -> evlrs_adjacent rh ->
-  can_answer c rh -> can_answer c' rh ->
   fst (read_via c e k f) = fst (read_via c' e' k' f).
 Proof.
-  intros f rh c c' e e' k k' Hlo Hadj Ha Ha'.
-  rewrite (read_via_spec c e k f rh Hlo (or_intror Hadj) Ha), (read_via_spec c' e' k' f rh Hlo (or_intror Hadj) Ha'). reflexivity.
+  intros f rh c c' e e' k k' Hlo Hadj.
+  rewrite (read_via_spec c e k f rh Hlo (or_intror Hadj)), (read_via_spec c' e' k' f rh Hlo (or_intror Hadj)). reflexivity.
 Qed.
 Print Assumptions access_path_independent.
 
 (* a source that can seek finds the EVLRs wherever they are (a gap after the last point is fine) *)
-Theorem seekable_any_layout : forall f rh c c' e e' k k', laid_out f rh -> c_seekable c = true -> c_seekable c' = true ->
-  can_answer c rh -> can_answer c' rh ->
+Theorem seekable_any_layout : forall f rh c c' e e' k k', laid_out f rh -> can_seek c = true -> can_seek c' = true ->
   fst (read_via c e k f) = fst (read_via c' e' k' f) /\ fst (read_via c e k f) = read_file f.
 Proof.
-  intros f rh c c' e e' k k' Hlo Hc Hc' Ha Ha'.
-  rewrite (read_via_spec c e k f rh Hlo (or_introl Hc) Ha), (read_via_spec c' e' k' f rh Hlo (or_introl Hc') Ha'). split; reflexivity.
+  intros f rh c c' e e' k k' Hlo Hc Hc'.
+  rewrite (read_via_spec c e k f rh Hlo (or_introl Hc)), (read_via_spec c' e' k' f rh Hlo (or_introl Hc')). split; reflexivity.
 Qed.
 Print Assumptions seekable_any_layout.
+
+(* a source that offers read() and nothing else: the file's header, VLRs, EVLRs and records like every other source, and
+   its read method is all that was ever called *)
+Definition only_reads (l : list sop) : bool := forallb (fun o => match o with ORead _ => true | _ => false end) l.
+
+Lemma offered_bare c l : c_has_seekable c = false -> c_readinto c = false -> only_offered c l = true -> only_reads l = true.
+Proof.
+  intros Hs Hr. unfold only_offered, only_reads. induction l as [|o l IH]; intros H; [reflexivity|].
+  cbn [forallb] in *. apply andb_true_iff in H as [Ho Hl]. rewrite (IH Hl), andb_true_r.
+  destruct o; cbn [offered] in Ho; unfold can_seek in Ho; rewrite ?Hs, ?Hr in Ho; cbn in Ho; congruence.
+Qed.
+
+Theorem bare_source_reads_the_file : forall c e steps f rh, laid_out f rh -> evlrs_adjacent rh ->
+  c_has_seekable c = false -> c_readinto c = false ->
+  fst (read_via c e steps f) = read_file f /\ only_reads (snd (read_via c e steps f)) = true
+  /\ only_reads (snd (consume_via c e steps f)) = true.
+Proof.
+  intros c e steps f rh Hlo Hadj Hs Hr. split; [apply (read_via_spec c e steps f rh Hlo (or_intror Hadj))|].
+  split; apply (offered_bare c); auto using only_what_is_offered, only_what_is_offered_consume.
+Qed.
+Print Assumptions bare_source_reads_the_file.
 
 (* ------------------------------------------------------------------------------------ *)
 (* G. memory map                                                                         *)
@@ -1002,10 +1223,10 @@ Print Assumptions read_mmap_spec.
 Lemma adjacent_in_file f rh : laid_out f rh -> evlrs_adjacent rh -> h_minor rh >= 4 -> h_nev rh > 0 -> h_evstart rh <= len f.
 Proof. intros (_ & _ & _ & _ & Hpp) Hadj H4 Hn. rewrite (Hadj H4 Hn). exact Hpp. Qed.
 
-Theorem mmap_same_as_streams : forall f rh c e k, laid_out f rh -> evlrs_adjacent rh -> can_answer c rh ->
+Theorem mmap_same_as_streams : forall f rh c e k, laid_out f rh -> evlrs_adjacent rh ->
   read_mmap f = fst (read_via c e k f).
 Proof.
-  intros f rh c e k Hlo Hadj Ha. rewrite (read_via_spec c e k f rh Hlo (or_intror Hadj) Ha).
+  intros f rh c e k Hlo Hadj. rewrite (read_via_spec c e k f rh Hlo (or_intror Hadj)).
   apply (read_mmap_spec f rh Hlo). now apply adjacent_in_file.
 Qed.
 Print Assumptions mmap_same_as_streams.
@@ -1206,6 +1427,76 @@ Proof.
 Qed.
 Print Assumptions mmap_set_local.
 
+(* assigning a whole dimension through the map (las.<dim> = values, las[<dim>] = values, las.<dim>[:] = values): one value
+   per record from record i on. The file keeps its length, changes nowhere outside the dimension's bytes of those records,
+   is still laid out, and a subsequent read shows the same header/VLRs/EVLRs and every record with its value stored *)
+Lemma mmap_set_from_local : forall vals f rh i o w, laid_out f rh ->
+  0 <= i -> i + len vals <= h_count rh -> 0 <= o -> o + w <= rh_psize rh ->
+  Forall (fun bs => len bs = w /\ bytes_ok bs = true) vals ->
+  (h_minor rh >= 4 -> h_nev rh > 0 -> rh_offset rh + h_count rh * rh_psize rh <= h_evstart rh) ->
+  let f' := mmap_set_from f (rh_offset rh) (rh_psize rh) i o vals in
+  len f' = len f /\ laid_out f' rh
+  /\ (forall j, (forall t, i <= t < i + len vals ->
+                   (j < Z.to_nat (rh_offset rh + t * rh_psize rh + o) \/ Z.to_nat (rh_offset rh + t * rh_psize rh + o + w) <= j)%nat) ->
+                 nth j f' 0 = nth j f 0)
+  /\ (forall lf, read_file f = Ok lf ->
+        exists lf', read_file f' = Ok lf' /\ lf_h lf' = lf_h lf /\ length (lf_points lf') = length (lf_points lf)
+          /\ (forall k, (k < Z.to_nat i \/ Z.to_nat i + length vals <= k)%nat -> nth k (lf_points lf') [] = nth k (lf_points lf) [])
+          /\ (forall t, (t < length vals)%nat ->
+                 nth (Z.to_nat i + t) (lf_points lf') [] = write_at (nth (Z.to_nat i + t) (lf_points lf) []) o (nth t vals []))).
+Proof.
+  induction vals as [|bs more IH]; intros f rh i o w Hlo Hi Hn Ho Hw HF Hev f'.
+  - cbn in f'. subst f'. split; [reflexivity|]. split; [exact Hlo|]. split; [reflexivity|].
+    intros lf Hrf. exists lf. split; [exact Hrf|]. split; [reflexivity|]. split; [reflexivity|]. split; [reflexivity|].
+    intros t Ht. cbn in Ht. lia.
+  - inversion HF as [|x xs [Hbl Hbo] HF']; subst x xs.
+    assert (len (bs :: more) = 1 + len more) as Hlen by (unfold len; cbn [length]; lia).
+    pose proof (len_nonneg more) as Hmn.
+    destruct (mmap_set_local f rh i o bs Hlo ltac:(lia) Ho ltac:(lia) Hbo Hev) as (L1 & O1 & _ & Lo1 & R1).
+    set (f1 := mmap_set f (rh_offset rh) (rh_psize rh) i o bs) in *.
+    destruct (IH f1 rh (i + 1) o w Lo1 ltac:(lia) ltac:(lia) Ho Hw HF' Hev) as (L2 & Lo2 & O2 & R2).
+    cbn [mmap_set_from] in f'. fold f1 in f'. subst f'.
+    split; [congruence|]. split; [exact Lo2|]. split.
+    + intros j Hj. rewrite O2.
+      * apply O1. rewrite Hbl. specialize (Hj i ltac:(lia)).
+        replace (rh_offset rh + i * rh_psize rh + o + w) with (rh_offset rh + i * rh_psize rh + o + w) in Hj by lia. exact Hj.
+      * intros t Ht. apply Hj. lia.
+    + intros lf Hrf. destruct (R1 lf Hrf) as (lf1 & Hrf1 & H1 & N1 & K1 & I1).
+      destruct (R2 lf1 Hrf1) as (lf2 & Hrf2 & H2 & N2 & K2 & I2).
+      exists lf2. split; [exact Hrf2|]. split; [congruence|]. split; [congruence|].
+      assert (Z.to_nat (i + 1) = S (Z.to_nat i)) as Hi1 by lia.
+      split.
+      * intros k Hk. cbn [length] in Hk. rewrite K2 by lia. apply K1. lia.
+      * intros t Ht. cbn [length] in Ht. destruct t as [|t].
+        -- rewrite Nat.add_0_r. cbn [nth]. rewrite K2 by lia. exact I1.
+        -- cbn [nth]. replace (Z.to_nat i + S t)%nat with (Z.to_nat (i + 1) + t)%nat by lia.
+           rewrite I2 by lia. f_equal. apply K1. lia.
+Qed.
+
+Theorem mmap_set_dim_local : forall f rh o w vals, laid_out f rh ->
+  len vals = h_count rh -> 0 <= o -> o + w <= rh_psize rh ->
+  Forall (fun bs => len bs = w /\ bytes_ok bs = true) vals ->
+  (h_minor rh >= 4 -> h_nev rh > 0 -> rh_offset rh + h_count rh * rh_psize rh <= h_evstart rh) ->
+  let f' := mmap_set_dim f (rh_offset rh) (rh_psize rh) o vals in
+  len f' = len f /\ laid_out f' rh
+  /\ (forall j, (forall t, 0 <= t < h_count rh ->
+                   (j < Z.to_nat (rh_offset rh + t * rh_psize rh + o) \/ Z.to_nat (rh_offset rh + t * rh_psize rh + o + w) <= j)%nat) ->
+                 nth j f' 0 = nth j f 0)
+  /\ (forall lf, read_file f = Ok lf ->
+        exists lf', read_file f' = Ok lf' /\ lf_h lf' = lf_h lf /\ length (lf_points lf') = length (lf_points lf)
+          /\ (forall k, (length vals <= k)%nat -> nth k (lf_points lf') [] = nth k (lf_points lf) [])
+          /\ (forall k, (k < length vals)%nat -> nth k (lf_points lf') [] = write_at (nth k (lf_points lf) []) o (nth k vals []))).
+Proof.
+  intros f rh o w vals Hlo Hn Ho Hw HF Hev f'.
+  destruct (mmap_set_from_local vals f rh 0 o w Hlo ltac:(lia) ltac:(lia) Ho Hw HF Hev) as (L & Lo & O & R).
+  fold (mmap_set_dim f (rh_offset rh) (rh_psize rh) o vals) in L, Lo, O, R. fold f' in L, Lo, O, R.
+  split; [exact L|]. split; [exact Lo|]. split.
+  - intros j Hj. apply O. intros t Ht. apply Hj. lia.
+  - intros lf Hrf. destruct (R lf Hrf) as (lf' & A & B & C & D & E). exists lf'. split; [exact A|]. split; [exact B|]. split; [exact C|].
+    split; [intros k Hk; apply D; cbn; lia|intros k Hk; apply (E k Hk)].
+Qed.
+Print Assumptions mmap_set_dim_local.
+
 (* ------------------------------------------------------------------------------------ *)
 (* H. every file the writer model produces is laid out, with adjacent EVLRs               *)
 (* ------------------------------------------------------------------------------------ *)
@@ -1302,10 +1593,10 @@ Qed.
 Print Assumptions written_files_laid_out.
 
 (* files without points: nothing but the header and the EVLRs, through every path *)
-Theorem zero_points_read : forall f rh c e k, laid_out f rh -> evlrs_adjacent rh -> can_answer c rh -> h_count rh <= 0 ->
+Theorem zero_points_read : forall f rh c e k, laid_out f rh -> evlrs_adjacent rh -> h_count rh <= 0 ->
   fst (read_via c e k f) = match evlrs_of f rh with Ok ev => Ok (mkLF (with_evlrs rh ev) []) | Err er => Err er end.
 Proof.
-  intros f rh c e k Hlo Hadj Ha H0. rewrite (read_via_spec c e k f rh Hlo (or_intror Hadj) Ha).
+  intros f rh c e k Hlo Hadj H0. rewrite (read_via_spec c e k f rh Hlo (or_intror Hadj)).
   apply (read_file_spec f rh [] (skipn (Z.to_nat (rh_offset rh)) f) Hlo); [constructor|unfold len; cbn; lia|reflexivity].
 Qed.
 Print Assumptions zero_points_read.
